@@ -7,14 +7,38 @@ from . import lib
 from .simlib import SimCheck
 
 
+from .dctopology import rand_tree
+
+
+def name_for(tag, rnd):
+    """The name the device reports: usually short, sometimes exactly as long as ethercrab's name buffer (64) or just below."""
+    base = f"DEV{tag}"
+    k = rnd.random()
+    if k < 0.15:
+        return base + "x" * (64 - len(base))
+    if k < 0.25:
+        return base + "y" * (63 - len(base))
+    if k < 0.3:
+        return base + "z" * rnd.randint(1, 59)
+    return base
+
+
+def mailbox_sizes(d, rnd):
+    if d["kind"] == "coe" and rnd.random() < 0.5:
+        d["mbx_recv"] = rnd.choice([16, 32, 64, 96, 128])
+        d["mbx_send"] = rnd.choice([16, 32, 64, 96, 128])
+    return d
+
+
 def case_from_model(i, j, rnd):
     net, cfg = j["net"], j["cfg"]
     devs = []
     for k, d in enumerate(net):
         kind = "coupler" if k == 0 and rnd.random() < 0.5 else rnd.choice(["dio", "dio", "coe"])
-        devs.append(dict(kind=kind, in_bits=rnd.choice([0, 1, 8, 12]), out_bits=rnd.choice([0, 2, 8, 16]),
+        devs.append(mailbox_sizes(dict(kind=kind, in_bits=rnd.choice([0, 1, 8, 12]), out_bits=rnd.choice([0, 2, 8, 16]),
                          dc=d["dc"], sii8=rnd.random() < 0.5, named=rnd.random() < 0.7, mailbox=(kind == "coe"),
-                         prior_addr=d["prior"], alias=rnd.choice([0, 0, 7, 0x1234, 0xFFFF]), tag=d["tag"]))
+                         prior_addr=d["prior"], alias=rnd.choice([0, 0, 7, 0x1234, 0xFFFF]), tag=d["tag"],
+                         name=name_for(d["tag"], rnd)), rnd))
     c = dict(id=f"m{i}", max_subdevices=cfg["maxSub"], devices=devs, groups=cfg["groups"], filter=cfg["filter"])
     if cfg["filter"] == "error_at":
         c["error_at"] = cfg["errorAt"]
@@ -28,11 +52,12 @@ def random_case(i, rnd):
     devs = []
     for k in range(n):
         kind = rnd.choice(["coupler", "dio", "dio", "coe"])
-        devs.append(dict(kind=kind, in_bits=rnd.randint(0, 24), out_bits=rnd.randint(0, 24),
+        devs.append(mailbox_sizes(dict(kind=kind, in_bits=rnd.randint(0, 24), out_bits=rnd.randint(0, 24),
                          dc=rnd.choice(["none", "dc32", "dc64", "ref32", "ref64"]), sii8=rnd.random() < 0.5, named=rnd.random() < 0.7,
                          mailbox=(kind == "coe"),
                          prior_addr=rnd.choice([0, 0x1000, 0x1001, 0x1000 + rnd.randint(0, 17), rnd.randint(0, 0xFFFF), 7]),
-                         alias=rnd.choice([0, 1, 0x00FF, 0x8000, 0xFFFF, rnd.randint(0, 0xFFFF)]), tag=k + 1))
+                         alias=rnd.choice([0, 1, 0x00FF, 0x8000, 0xFFFF, rnd.randint(0, 0xFFFF)]), tag=k + 1,
+                         name=name_for(k + 1, rnd)), rnd))
     groups = rnd.choice([1, 2, 3])
     flt = rnd.choice(["single", "roundrobin", "roundrobin", "bytag", "error_at"])
     if flt == "single":
@@ -40,6 +65,11 @@ def random_case(i, rnd):
     c = dict(id=f"r{i}", max_subdevices=maxs, devices=devs, groups=groups, filter=flt)
     if flt == "error_at":
         c["error_at"] = rnd.randint(0, max(n, 1))
+    # a tree instead of a line (junctions whose ports 1, 2, 3 are not all in use)
+    if n >= 3 and rnd.random() < 0.4:
+        parent = rand_tree(rnd, n)
+        if len(parent) == n:
+            c["parent"] = parent
     return c
 
 
@@ -61,7 +91,7 @@ def run(pid, tier):
     stride = max(1, len(models) // (3000 if q else 40000))
     picked = models[lib.seed() % stride::stride]
     cases = [case_from_model(i, j, rnd) for i, j in enumerate(picked)]
-    cases += [random_case(i, rnd) for i in range(400 if q else 20000)]
+    cases += [random_case(i, rnd) for i in range(1000 if q else 20000)]
     trace = sc.run_cases("init", cases)
     tconst = dict(MaxSubs="{2}", MaxDevs=0, PriorAddrs="{0}", DcKinds="{}", NGroups="{1}", Filters="{}")
     sc.validate("init", trace, "InitTrace", tconst,
